@@ -733,6 +733,39 @@ class Extractor:
                 labs.append(Lab(lab.base, ix.lo, ("upto", ix.value)))
         return labs
 
+    def flush_store(self, st):
+        """`x[x < tiny] = 0` (also with abs) on an intermediate array of a kernel: entries below a positive threshold are replaced by
+        zero.  The quantities built from it are products with polynomial factors that can be large (high angular momentum, a distant
+        moment origin, 1/(2p) for diffuse primitives), so a flushed factor makes integrals exactly zero whose value is not small: a
+        definite defect of the formula.  A threshold of exactly 0 on a value that is an exponential is a no-op and is skipped."""
+        t = st.targets[0]
+        if not (isinstance(t.value, ast.Name) and isinstance(self.env.get(t.value.id), SV) and isinstance(t.slice, ast.Compare)
+                and len(t.slice.ops) == 1 and isinstance(t.slice.ops[0], (ast.Lt, ast.LtE))
+                and isinstance(st.value, ast.Constant) and st.value.value in (0, 0.0)):
+            return
+        left = t.slice.left
+        if isinstance(left, ast.Call) and (dotted(left.func) or "").split(".")[-1] in ("abs", "absolute", "fabs") and len(left.args) == 1:
+            left = left.args[0]
+        if not (isinstance(left, ast.Name) and left.id == t.value.id):
+            return
+        thr = t.slice.comparators[0]
+        txt = ast.unparse(thr)
+        positive = None
+        if isinstance(thr, ast.Constant) and isinstance(thr.value, (int, float)):
+            positive = thr.value > 0
+        elif "finfo" in txt and txt.split(".")[-1] in ("eps", "tiny", "resolution", "smallest_normal"):
+            positive = True
+        if positive is None:
+            return
+        if not positive:
+            cur = self.env[t.value.id]
+            if isinstance(thr, ast.Constant) and thr.value == 0 and isinstance(cur.e, sp.exp) and isinstance(t.slice.ops[0], ast.Lt):
+                raise _NoOpStore()
+            return
+        raise ValueDefect(f"entries of `{t.value.id}` below {txt} are replaced by 0 (`{ast.unparse(st)[:80]}`): everything the recursion builds from "
+                           f"them is then exactly zero, although those integrals are the flushed factor times polynomial factors that need not "
+                           f"be small (high angular momenta, a distant moment origin, diffuse primitives)", st)
+
     def store(self, st):
         t = st.targets[0]
         if isinstance(t.value, ast.Name) and t.value.id not in self.tables and self.view_target(t.value) is not None:
@@ -750,6 +783,10 @@ class Extractor:
             self.synthetic[id(syn)] = st
             return self.store(syn)
         if not (isinstance(t.value, ast.Name) and t.value.id in self.tables):
+            try:
+                self.flush_store(st)
+            except _NoOpStore:
+                return
             # store into something that is not a recursion table (e.g. masked store): opaque
             self.err(f"store into `{ast.unparse(t.value)}` which is not a recursion table", st)
         table = self.tables[t.value.id]
@@ -1202,6 +1239,11 @@ class Extractor:
                 if isinstance(lab.base, tuple) and lab.base[0] in ("lit", "ordrow", "mom", "tab"):
                     val = val.subs(sp.Symbol("row"), k) if lab.base[0] == "ordrow" else val
                     sel = getattr(self, "_selected", None)
+                    continue
+                if isinstance(lab.base, tuple) and lab.base[:2] == ("dim", "L") and getattr(val.func, "__name__", "").startswith("Comp") \
+                        and val.args == (c,) and k.is_number:
+                    # one row of a shell's table of Cartesian components: (a_x, a_y, a_z) of its k-th component (every row sums to l)
+                    val = sp.Function("Row" + val.func.__name__)(k, c)
                     continue
                 # selecting one entry of a data axis (e.g. one primitive): not elementwise-generic any more
                 self.err(f"axis {lab} indexed by `{ast.unparse(x)}`", e)
@@ -1937,9 +1979,19 @@ class LabelMismatch(Exception):
         self.msg, self.node, self.involved = msg, node, involved
 
 
+class _NoOpStore(Exception):
+    pass
+
+
 class KernelDefect(LabelMismatch):
     """A definite defect found while evaluating a kernel that is not an axis mismatch (reported by the same handlers, message as is)"""
     plain = True
+
+
+class ValueDefect(KernelDefect):
+    """A defect of the computed values that leaves axes, layout and symmetry alone: reported by the checks of the operators that use the
+    kernel, not by the cross-cutting layout / symmetry checks"""
+    value_only = True
 
 
 def store_outside_table(store, tab):
